@@ -7,6 +7,9 @@
 //! `unix listen <rt> <bound|fd> n=<k> => ids=<distinct|dup> served=<k>`
 //! `unix cancel <rt> big=<n> => <frames seen by the peer: ok:<hash> | bad:<len>>*`   (a send cancelled by a timeout
 //!     while the peer is not reading, then a small message, then the peer reads everything)
+//! `unix pollonce <rt> n=<k> size=<s> => done=<1|p|e per send> got=<index|bad:<len>>*`   (k small sends; each send future is
+//!     polled exactly once and dropped if it is still pending - a send abandoned at its first suspension point -; the peer
+//!     then reads everything: only whole frames, each at most once, in order, and every completed send's frame)
 
 use crate::*;
 use serde::{Deserialize, Serialize};
@@ -321,6 +324,112 @@ fn cancel_smol(big: usize) -> Vec<String> {
     })
 }
 
+fn noop_waker() -> std::task::Waker {
+    use std::task::{RawWaker, RawWakerVTable, Waker};
+    fn raw() -> RawWaker {
+        fn clone(_: *const ()) -> RawWaker { raw() }
+        fn noop(_: *const ()) {}
+        static VT: RawWakerVTable = RawWakerVTable::new(clone, noop, noop, noop);
+        RawWaker::new(std::ptr::null(), &VT)
+    }
+    unsafe { Waker::from_raw(raw()) }
+}
+
+fn frames_to_indices(raw: &[u8]) -> Vec<String> {
+    raw.split(|b| *b == 0)
+        .filter(|f| !f.is_empty())
+        .map(|f| match serde_json::from_slice::<Call<M>>(f) {
+            Ok(c) => {
+                let M::Blob { i, .. } = c.method();
+                i.to_string()
+            }
+            Err(_) => format!("bad:{}", f.len()),
+        })
+        .collect()
+}
+
+fn read_all_thread(b: std::os::unix::net::UnixStream) -> std::thread::JoinHandle<Vec<u8>> {
+    std::thread::spawn(move || {
+        use std::io::Read;
+        let mut b = b;
+        b.set_read_timeout(Some(Duration::from_millis(2000))).unwrap();
+        let mut all = vec![];
+        let mut buf = vec![0u8; 1 << 16];
+        loop {
+            match b.read(&mut buf) {
+                Ok(0) => break,
+                Ok(n) => all.extend_from_slice(&buf[..n]),
+                Err(_) => break,
+            }
+        }
+        all
+    })
+}
+
+/// gives the executor a turn (tokio's cooperative budget makes every I/O operation report Pending after 128 of them
+/// within one poll of the task; a turn resets it)
+struct YieldOnce(bool);
+impl std::future::Future for YieldOnce {
+    type Output = ();
+    fn poll(mut self: std::pin::Pin<&mut Self>, cx: &mut std::task::Context<'_>) -> std::task::Poll<()> {
+        if self.0 {
+            std::task::Poll::Ready(())
+        } else {
+            self.0 = true;
+            cx.waker().wake_by_ref();
+            std::task::Poll::Pending
+        }
+    }
+}
+
+/// `n` sends of about `size` bytes, each polled exactly once; a send that is still pending after its first poll
+/// is dropped (abandoned at its first suspension point). Index 0 is a warm-up sent normally.
+async fn pollonce_on<S: zlink_core::connection::Socket>(conn: &mut Connection<S>, n: usize, size: usize) -> String {
+    use std::future::Future;
+    let waker = noop_waker();
+    let mut done = String::new();
+    let warm = Call::new(M::Blob { i: 0, data: payload(size, 0) });
+    done.push(if conn.send_call(&warm).await.is_ok() { '1' } else { 'e' });
+    for i in 1..n {
+        if i % 50 == 0 {
+            YieldOnce(false).await;
+        }
+        let c = Call::new(M::Blob { i: i as u32, data: payload(size + i % 7, i) });
+        let mut cx = std::task::Context::from_waker(&waker);
+        let mut f = Box::pin(conn.send_call(&c));
+        match f.as_mut().poll(&mut cx) {
+            std::task::Poll::Ready(Ok(())) => done.push('1'),
+            std::task::Poll::Ready(Err(_)) => done.push('e'),
+            std::task::Poll::Pending => done.push('p'),
+        }
+        drop(f);
+    }
+    done
+}
+
+fn pollonce_tokio(n: usize, size: usize) -> (String, Vec<String>) {
+    tokio_rt().block_on(async {
+        let (a, b) = std::os::unix::net::UnixStream::pair().unwrap();
+        a.set_nonblocking(true).unwrap();
+        let mut conn = Connection::new(zlink_tokio::unix::Stream::from(tokio::net::UnixStream::from_std(a).unwrap()));
+        let reader = read_all_thread(b);
+        let done = pollonce_on(&mut conn, n, size).await;
+        drop(conn);
+        (done, frames_to_indices(&reader.join().unwrap()))
+    })
+}
+
+fn pollonce_smol(n: usize, size: usize) -> (String, Vec<String>) {
+    async_io::block_on(async {
+        let (a, b) = std::os::unix::net::UnixStream::pair().unwrap();
+        let mut conn = Connection::new(zlink_smol::unix::Stream::from(async_io::Async::new(a).unwrap()));
+        let reader = read_all_thread(b);
+        let done = pollonce_on(&mut conn, n, size).await;
+        drop(conn);
+        (done, frames_to_indices(&reader.join().unwrap()))
+    })
+}
+
 /// Connections created at the same instant by several OS threads (a barrier releases them together): the
 /// identifiers must still be pairwise distinct. Real socket pairs, wrapped as zlink connections of the runtime.
 fn concurrent_ids(tokio_rt_kind: bool, threads: usize, per: usize, rounds: usize) -> (usize, usize) {
@@ -463,6 +572,12 @@ pub fn main(o: &Opts) {
             em.case(|| {
                 let (n, d) = concurrent_ids(rt == "tokio", 8, 16, rounds);
                 vec![format!("unix ids {rt} threads=8 per=16 rounds={rounds} n={n} => ids={}", if n == d { "distinct".to_string() } else { format!("dup:{}", n - d) })]
+            });
+        }
+        for (n, size) in [(130usize, 40usize), (70, 180), (300, 10)] {
+            em.case(|| {
+                let (done, got) = if rt == "tokio" { pollonce_tokio(n, size) } else { pollonce_smol(n, size) };
+                vec![format!("unix pollonce {rt} n={n} size={size} => done={done} got={}", got.join(","))]
             });
         }
         for big in [1usize << 20, 400_000] {
